@@ -64,7 +64,7 @@ Definition walk (r : rstore) (parts : list string) : wres :=
 (* ---- Alias.target of alias i.  [passed]: the aliases whose _passed_through flag is set (the chain being resolved).
    TRes t: the immediate target (the whole chain below it reaches an object); KeyError anywhere -> AliasResolutionError;
    coming back to an alias of the chain -> CyclicAliasError.  Fuel: one unit per link; [chase_fuel] always suffices
-   (Proofs/C11_elab.v: chase_total) -- running out is reported as TCyc and never happens. ---- *)
+   (Proofs/C11_elab.v: outcome_fuel_irrelevant) -- running out would be reported as TCyc and never happens. ---- *)
 Fixpoint chase (r : rstore) (fuel : nat) (passed : list nat) (i : nat) : tgt :=
   match fuel with
   | 0 => TCyc
